@@ -235,6 +235,7 @@ class Translator:
         self.notes: List[str] = []
         self.rets: List[Ret] = []
         self.reserved = set()
+        self.atoms: Dict[str, Binding] = {}  # source text of a sub-expression -> the variable that stands for it
 
     # ---- entry
     def translate(self) -> Kernel:
@@ -626,6 +627,10 @@ class Translator:
 
     def expr(self, node, env, facts) -> Ex:
         fn = self.fn.name
+        if self.atoms and not isinstance(node, ast.Constant):
+            key = src(node)
+            if key in self.atoms:
+                return self.var(self.atoms[key])
         if isinstance(node, ast.Constant):
             if isinstance(node.value, str):
                 raise Unsupported(f"{fn}: a string literal outside a comparison with a parameter")
@@ -841,6 +846,39 @@ def translate_function(fn: ast.FunctionDef, lean_name: str, params: Sequence[Par
         k.source = ast.unparse(fn)
     except Exception:  # pylint: disable=broad-except
         k.source = ""
+    return k
+
+
+def translate_expression(node: ast.expr, lean_name: str, atoms: Sequence[Tuple[str, str, str]], consts=None,
+                         numpy_names=("np",), source_text: Optional[str] = None, py_name: str = "<expression>") -> Kernel:
+    """One expression (e.g. the test of an `if` inside a loop that is not itself in the subset) as a kernel.
+    `atoms`: (source text of a sub-expression, Lean parameter name, type) — every occurrence of that text (compared
+    after `ast.unparse`) is the parameter; all of them become parameters of the definition, in this order, used or not
+    (so that the statement of the theorem about it does not depend on which ones the source uses today).
+    Any other name is refused."""
+    dummy = ast.FunctionDef(name=py_name, args=ast.arguments(posonlyargs=[], args=[], kwonlyargs=[], kw_defaults=[], defaults=[]),
+                            body=[], decorator_list=[])
+    t = Translator(dummy, lean_name, [], consts, numpy_names, source_text)
+    params, lean_params = [], []
+    for text, lean, ty in atoms:
+        if ty not in (VAL, RAT, INT, BOOL, STR):
+            raise Unsupported(f"{py_name}: atom `{text}` of unknown type {ty}")
+        key = src(ast.parse(text, mode="eval").body)
+        t.atoms[key] = Binding(lean_ident(lean), ty)
+        params.append(Param(lean, ty))
+        lean_params.append((lean_ident(lean), ty))
+    if len({n for n, _ in lean_params}) != len(lean_params):
+        raise Unsupported(f"{py_name}: atom names collide")
+    for n in ast.walk(node):
+        if isinstance(n, (ast.Lambda, ast.NamedExpr, ast.Await, ast.Yield, ast.YieldFrom)):
+            raise Unsupported(f"{py_name}: `{src(n)}` is outside the subset")
+    e = t.expr(node, {}, frozenset())
+    if e.ty not in NUMERIC + (BOOL,):
+        raise Unsupported(f"{py_name}: the expression is a {e.ty}")
+    r = Ret([e])
+    tree = t.wrap_pending(r, 0)
+    k = Kernel(py_name, lean_name, params, lean_params, tree, [e.ty], t.partial, notes=t.notes)
+    k.source = src(node)
     return k
 
 
